@@ -99,25 +99,30 @@ Proof.
   destruct q; simpl in *; unfold walk, alldone, started, live, owns, gw in *; rewrite ?Hh, ?Hr, ?Ho, ?Hrun, ?Hst; intuition.
 Qed.
 
+(* what a worker goroutine's own invariant reads of its worker object *)
+Definition samew (x y : worker) : Prop :=
+  w_started x = w_started y /\ w_returned x = w_returned y /\ w_flag x = w_flag y.
+Lemma samew_refl x : samew x x.
+Proof. unfold samew; auto. Qed.
+
 (* General rely lemma for a step of thread t without spawn: what each class of other threads needs. *)
-Lemma others_gen s s' t p' :
-  threads s' = upd (threads s) t (fun _ => p') ->
+Lemma others_gen s s' t :
   (forall t', t' <> t -> lock s = Some t' -> lock s' = Some t') ->
   (forall t', t' <> t -> lock s = Some t' -> nolate s -> once s <> ODone ->
      nolate s' /\ once s' <> ODone /\ reg s' = reg s /\ (running s = true -> running s' = true) /\
-     (forall w, fresh s w -> fresh s' w) /\ (forall w, w_name (gw s' w) = w_name (gw s w))) ->
+     (forall w, fresh s w -> fresh s' w) /\ (forall w, w_name (gw s' w) = w_name (gw s w) /\ w_tid (gw s' w) = w_tid (gw s w))) ->
   (forall t' n, t' <> t -> incall s t' n -> incall s' t' n) ->
   (forall t' q, t' <> t -> thr s t' q -> sdact q = true -> once s = OBusy -> once s' = OBusy) ->
   (stopped s = true -> stopped s' = true) ->
   (forall t' q, t' <> t -> thr s t' q -> late q = true ->
      (forall v, ord (heap s') v = ord (heap s) v) /\ (forall v, live s' v -> live s v) /\ (alldone s -> alldone s')) ->
   (forall t' w q, t' <> t -> thr s t' q -> wpc q = Some w ->
-     gw s' w = gw s w /\ (stopped s' = false -> owns s w -> owns s' w)) ->
+     samew (gw s' w) (gw s w) /\ (stopped s' = false -> owns s w -> owns s' w)) ->
   forall t' q, t' <> t -> thr s t' q -> tinv s t' q -> tinv s' t' q.
 Proof.
-  intros Hth Hlk Hsec Hic Hsd Hst Hlate Hw t' q Hne Hq Hi.
+  intros Hlk Hsec Hic Hsd Hst Hlate Hw t' q Hne Hq Hi.
   assert (IS : insec_ok s t' -> insec_ok s' t' /\ reg s' = reg s /\ (running s = true -> running s' = true) /\
-     (forall w, fresh s w -> fresh s' w) /\ (forall w, w_name (gw s' w) = w_name (gw s w))).
+     (forall w, fresh s w -> fresh s' w) /\ (forall w, w_name (gw s' w) = w_name (gw s w) /\ w_tid (gw s' w) = w_tid (gw s w))).
   { unfold insec_ok. intros [L [N O]]. destruct (Hsec _ Hne L N O) as [A [B [C [D [E F]]]]].
     exact (conj (conj (Hlk _ Hne L) (conj A B)) (conj C (conj D (conj E F)))). }
   assert (WK : late q = true -> forall td pv, walk s td pv -> walk s' td pv).
@@ -132,8 +137,8 @@ Proof.
   - destruct Hi as [A B]. destruct (IS A) as [A' _]. split; eauto.
   - destruct Hi as [A [B C]]. destruct (IS A) as [A' [R _]]. rewrite R. split; [exact A'|]. split; [eauto|exact C].
   - destruct Hi as [A [B C]]. destruct (IS A) as [A' [R _]]. rewrite R. split; [exact A'|]. split; [eauto|exact C].
-  - destruct Hi as [A [B [C D]]]. destruct (IS A) as [A' [R [Ru [F N]]]]. rewrite N.
-    split; [exact A'|]. split; [eauto|]. split; [auto|]. apply F; auto.
+  - destruct Hi as [A [B [C [D E]]]]. destruct (IS A) as [A' [R [Ru [F N]]]]. rewrite (proj1 (N w)), (proj2 (N w)).
+    split; [exact A'|]. split; [eauto|]. split; [auto|]. split; [apply F; auto|exact E].
   - exact I.
   - exact I.
   - eauto.
@@ -158,12 +163,12 @@ Proof.
     split; [eapply Hsd; eauto|]. split; auto.
   - destruct Hi as [A [B C]]. destruct (Hlate _ _ Hne Hq eq_refl) as [E [F K]].
     split; [eapply Hsd; eauto|]. split; auto.
-  - destruct Hi as [A [B C]]. destruct (Hw _ w _ Hne Hq eq_refl) as [E F]. unfold live. rewrite E.
+  - destruct Hi as [A [B C]]. destruct (Hw _ w _ Hne Hq eq_refl) as [[E1 [E2 E3]] F]. unfold live, livew in *. rewrite E1, E2, E3.
     split; [exact A|]. split; [exact B|].
     intros S'. apply F; auto. apply C. destruct (stopped s) eqn:Es; auto. rewrite (Hst eq_refl) in S'. discriminate.
-  - destruct Hi as [A [B C]]. destruct (Hw _ w _ Hne Hq eq_refl) as [E F]. rewrite E.
+  - destruct Hi as [A [B C]]. destruct (Hw _ w _ Hne Hq eq_refl) as [[E1 [E2 E3]] F]. rewrite E2, E3.
     split; [exact A|]. split; [exact B|].
     intros S'. apply F; auto. apply C. destruct (stopped s) eqn:Es; auto. rewrite (Hst eq_refl) in S'. discriminate.
-  - destruct Hi as [A B]. destruct (Hw _ w _ Hne Hq eq_refl) as [E F]. rewrite E. auto.
+  - destruct Hi as [A B]. destruct (Hw _ w _ Hne Hq eq_refl) as [[E1 [E2 E3]] F]. rewrite E2, E3. auto.
   - exact I.
 Qed.
